@@ -7,6 +7,14 @@
 (*   conn (the code's t2f / f2t of the exported mesh), ud_pre / ud_post (user   *)
 (*   data), ck_pre / ck_post (checksums of the exported mesh's arrays).        *)
 (*                                                                             *)
+(* Histories: an event with step = 2 is the second save / load of a history -  *)
+(* pre is the LOADED mesh of the step-1 event after existing tag names were    *)
+(* re-defined (other entity sets, other flags), exported together with all the *)
+(* data the first file gave back (the old "skfem:*" arrays included); the same *)
+(* clauses apply: the tags that come back are those of the mesh that was saved.*)
+(* udck_pre / udck_post: checksums of the user's own arrays inside the         *)
+(* dictionaries handed to the export, before and after it.                     *)
+(*                                                                             *)
 (* Model drift (evidence only): the transcription DecodeImpl(EncodeImpl(.)),    *)
 (* evaluated on the code's own t2f / f2t tables, is compared with what the     *)
 (* code returned (index arrays and flags); counted, never a verdict.           *)
@@ -35,17 +43,31 @@ Predicted(e, n) ==
 AsTranscribed(e) == /\ BndNames(e.pre) = BndNames(e.post)
                     /\ \A n \in BndNames(e.pre) :
                          LET d == Predicted(e, n) b2 == BndOf(e.post, n) IN d.ids = b2.ids /\ d.ori = b2.ori
+\* the export must not write into the arrays the user handed over (the operands of the call besides the mesh)
+UserArraysNotModified(e) == e.udck_pre = e.udck_post
+
+\* the document the harness wrote has the shape this specification reads (evaluated first)
+EventFields == {"a", "fmt", "codec", "err", "step", "pre", "post", "conn", "ud_pre", "ud_post", "ck_pre", "ck_post",
+                "udck_pre", "udck_post", "sid", "pos"}
+MeshFields  == {"kind", "cls", "p", "t", "tt", "nv", "nf", "hass", "hasb", "sub", "bnd"}
+HarnessInputWellFormed(e) ==
+  /\ EventFields \subseteq DOMAIN e
+  /\ MeshFields \subseteq DOMAIN e.pre /\ MeshFields \subseteq DOMAIN e.post
+  /\ {"ok", "t2f", "f2t"} \subseteq DOMAIN e.conn
+
 Clauses(e) ==
-  IF e.err # "" THEN [NoUnexpectedError |-> FALSE]
+  IF ~HarnessInputWellFormed(e) THEN [HarnessInputWellFormed |-> FALSE]
+  ELSE IF e.err # "" THEN [NoUnexpectedError |-> FALSE]
   ELSE LET base == RoundTripClauses(e.pre, e.post) IN
        IF ~base.WellFormed THEN base @@ [NoUnexpectedError |-> TRUE]
        ELSE base @@ [ NoUnexpectedError |-> TRUE,
                       UserDataUnchanged |-> UserDataUnchanged(e),
+                      UserArraysNotModified |-> UserArraysNotModified(e),
                       ExportDoesNotAlterMesh |-> ExportDoesNotAlterMesh(e) ]
 
 \* model drift (evidence only, never a verdict): does the transcription predict what the code returned?
 Drift(e) ==
-  IF e.err = "" /\ e.codec = "celldata" /\ RTWellFormed(e.pre) /\ RTWellFormed(e.post) /\ ConnOK(e)
+  IF HarnessInputWellFormed(e) /\ e.err = "" /\ e.codec = "celldata" /\ RTWellFormed(e.pre) /\ RTWellFormed(e.post) /\ ConnOK(e)
   THEN IF AsTranscribed(e) THEN [Drift_checked |-> TRUE] ELSE [Drift_checked |-> TRUE, Drift_mismatch |-> TRUE]
   ELSE <<>>
 
